@@ -6,6 +6,8 @@ cannot be executed symbolically and is outside.  What is decided: the real InMem
 implementation is written to — for every sequence of calls inside the bound, every return value compared."""
 import z3
 
+from mirsym.parser import Unsupported
+
 from mirsym.explore import PathAbort, Panic
 from mirsym.values import Adt, clone_val, PyMap, PyVec, Some, NONE, mkref, TokStr, Ref, LV, BoxV, deref, STRLEN
 from mirsym.models.core import val_eq, z_and, z_all, z_any
@@ -65,10 +67,46 @@ def op_uuid(op):
     return None if op.variant == 3 else op.fields[0]
 
 
+class ScriptedCtx:
+    """the exploration context with the harness-level choices of the first calls fixed by a script (one dict of
+    label -> value per call): lets a configuration start from a given history and explore every continuation"""
+
+    def __init__(self, ctx, script):
+        object.__setattr__(self, '_ctx', ctx)
+        object.__setattr__(self, '_script', [dict(d) for d in script])
+        object.__setattr__(self, '_cur', None)
+
+    def choose(self, n, label=''):
+        if label == 'call':
+            object.__setattr__(self, '_cur', self._script.pop(0) if self._script else None)
+        cur = self._cur
+        if cur is not None and label in cur:
+            return cur[label]
+        if cur is not None:
+            raise Unsupported('scripted prefix does not fix the choice ' + label)
+        return self._ctx.choose(n, label)
+
+    def __getattr__(self, k):
+        return getattr(self._ctx, k)
+
+    def __setattr__(self, k, v):
+        setattr(self._ctx, k, v)
+
+
+CALLS = ['get_task', 'create_task', 'set_task', 'delete_task', 'all_tasks', 'base_version', 'set_base_version',
+         'add_operation', 'remove_operation', 'unsynced_operations', 'get_task_operations', 'sync_complete',
+         'get_working_set', 'add_to_working_set', 'set_working_set_item', 'clear_working_set', 'get_pending_tasks',
+         'is_empty', 'commit', 'abandon']
+# a task with a synchronized operation: create_task(1); add_operation(Create 1); sync_complete
+PREFIX_SYNCED_TASK = [{'call': CALLS.index('create_task'), 'uuid': 0}, {'call': CALLS.index('add_operation'), 'uuid': 0, 'opkind': 0},
+                      {'call': CALLS.index('sync_complete')}]
+
+
 class Harness:
-    def __init__(self, ncalls, name, replay_one_in=1):
+    def __init__(self, ncalls, name, replay_one_in=1, prefix=()):
         self.I = get_interp()
         self.ncalls, self.name = ncalls, name
+        self.prefix = list(prefix)
         self.replay_one_in = replay_one_in      # share of the distinct call sequences replayed on both compiled backends
 
     def call(self, txn, meth, *args):
@@ -77,7 +115,7 @@ class Harness:
         return I.block_on(fut)
 
     def run_path(self, ctx):
-        c, I = ctx, self.I
+        c, I = (ScriptedCtx(ctx, self.prefix) if self.prefix else ctx), self.I
         w = World(I, ctx)
         st = w.new_storage()
         cell = [st]
@@ -106,7 +144,7 @@ class Harness:
                  'add_operation', 'remove_operation', 'unsynced_operations', 'get_task_operations', 'sync_complete',
                  'get_working_set', 'add_to_working_set', 'set_working_set_item', 'clear_working_set', 'get_pending_tasks',
                  'is_empty', 'commit', 'abandon']
-        for step in range(self.ncalls):
+        for step in range(len(self.prefix) + self.ncalls):
             meth = calls[c.choose(len(calls), 'call')]
             if meth in ('get_task', 'create_task', 'delete_task', 'get_task_operations', 'add_to_working_set'):
                 u = 1 + c.choose(2, 'uuid')
@@ -356,6 +394,10 @@ def configs(tier):
     return [dict(name=f'calls{n}', factory=lambda: Harness(n, 'c', one_in),
                  bounds=f'every sequence of {n} StorageTxn calls (20 methods incl. commit / abandon+reopen; 2 task ids, 1 property, symbolic values) on an initially empty store; '
                         + ('every' if one_in == 1 else f'one in {one_in} (chosen by VERIF_SEED) of the') + ' distinct contract-respecting call sequences also replayed on the compiled InMemoryStorage and SqliteStorage and compared',
+                 time_limit_s=600 if tier == 'quick' else 3300, opts={'max_samples': 1 << 30}),
+            dict(name=f'synced-task+calls{n}', factory=lambda: Harness(n, 'p', one_in, prefix=PREFIX_SYNCED_TASK),
+                 bounds=f'from a store holding one task with a synchronized operation (create_task, add_operation(Create), sync_complete): every sequence of {n} further calls, '
+                        'replayed on both compiled backends like the first configuration (added after round-6 seed C16-agent-6 needed two sync_complete calls)',
                  time_limit_s=600 if tier == 'quick' else 3300, opts={'max_samples': 1 << 30})]
 
 
